@@ -864,6 +864,15 @@ func componentCaseKind(c *Case, force string) (*WF, string) {
 		np := 1 + t.Choose(simrt.StGen, 3, 0)
 		g.Rec = true
 		seen := map[string]bool{}
+		// overlapping patterns: a file matched by two patterns is emitted twice. A
+		// command process would get two tasks with the same identity, so the
+		// consumer is then a tagging component (which takes the same file twice)
+		overlap := t.Choose(simrt.StGen, 3, 0) == 1
+		if overlap {
+			// (only patterns that cannot match the audit files the tagger writes while
+			// the component is still globbing)
+			pats = []string{"data/*.txt", "*/a1.txt", "data/?1.txt", "*.txt", "data/a2.txt", "other/a1.txt", "data/a*.txt"}
+		}
 		for i := 0; i < np; i++ {
 			p := pats[t.Choose(simrt.StGen, len(pats), 0)]
 			if seen[p] {
@@ -877,6 +886,11 @@ func componentCaseKind(c *Case, force string) (*WF, string) {
 					if f == m {
 						dup = true
 					}
+				}
+				if dup && overlap {
+					c.Probe("globber-overlapping-patterns")
+					dup = false
+					g.Dup = true
 				}
 				if dup {
 					// the same file matched by two patterns is emitted twice: the
@@ -894,6 +908,11 @@ func componentCaseKind(c *Case, force string) (*WF, string) {
 		}
 		g.Outs = []OutSpec{{Name: "out"}}
 		gi := addNode(w, g)
+		if g.Dup {
+			addNode(w, Node{Name: "use", Kind: KMapToTags, TagKey: "seen",
+				Ins: []InSpec{{Name: "in", From: []Edge{{gi, "out"}}}}, Outs: []OutSpec{{Name: "out"}}})
+			return w, kind
+		}
 		oneToOne(w, "use", Edge{gi, "out"})
 		if len(g.Files) > 0 && t.Choose(simrt.StGen, 4, 0) == 1 {
 			// the same program deletes some of the matched files and runs the workflow
@@ -1040,6 +1059,12 @@ func init() {
 						}
 					}
 				}
+				if g := w.NodeByName("glob"); kind == "globber" && g != nil && g.Dup && inc.Sim.End == simrt.EndExit &&
+					strings.Contains(string(inc.Sim.Stderr), "Could not unmarshal audit log file content: ") && strings.Contains(string(inc.Sim.Stderr), "unexpected end of JSON input") {
+					// known finding F-C19-1: the second IP of a file that is emitted twice reads
+					// the audit file while the tagging component re-writes it (truncate, write)
+					return Viol("no-completion", "torn-audit-read", "workflow around %s did not complete: the audit file of a file that is emitted twice was read while a tagging component was re-writing it: %s", kind, endDesc(inc))
+				}
 				return Viol("no-completion", kind, "workflow around %s did not complete: %s", kind, endDesc(inc))
 			}
 			root := inc.Sim.FS.Root
@@ -1179,6 +1204,13 @@ func init() {
 				// matches are emitted pattern by pattern, each pattern's matches in the
 				// (sorted) order filepath.Glob yields them
 				got := inc.RT.Recorded[recKey("glob", "out", "use", "a")]
+				if w.NodeByName("glob").Dup {
+					got = inc.RT.Recorded[recKey("glob", "out", "use", "in")]
+					if want := w.NodeByName("glob").Files; strings.Join(got, " ") != strings.Join(want, " ") {
+						return Viol("globber-order", kind, "FileGlobber with overlapping patterns %v emitted %v; pattern by pattern the matches are %v", w.NodeByName("glob").Globs, got, want)
+					}
+					return OK()
+				}
 				if len(w.Rounds) > 0 {
 					want := append([]string{}, w.NodeByName("glob").Files...)
 					if len(inc.RT.PreRound) > 0 {
